@@ -214,11 +214,12 @@ def decode_data(env, data):
     return {k: dec(v) for k, v in data.items()}
 
 
-def render_entry(env, name, data, loop=None):
+def render_entry(env, name, data, loop=None, tglobals=None):
     """Render template ``name`` of ``env`` with JSON ``data``; async environments go through
-    render_async on ``loop`` (an asyncio loop owned by the caller)."""
+    render_async on ``loop`` (an asyncio loop owned by the caller).  ``tglobals`` = template-level
+    globals the entry is loaded with (``ir["tglobals"].get(name)``)."""
     args = decode_data(env, data)
-    t = env.get_template(name)
+    t = env.get_template(name, globals=dict(tglobals) if tglobals else None)
     if env.is_async:
         return loop.run_until_complete(t.render_async(args))
     return t.render(args)
@@ -690,7 +691,10 @@ class _MGen:
                 pubs.append(nm)
             elif k == "macro":
                 nm = d(st.sampled_from(["m0", "m1"]))
-                body = [["text", "<%s.%s " % (me, nm)], ["out", ["n", "a"]], ["text", "|"], self.probe(), ["text", ">"]]
+                pr = self.probe()
+                if d(st.booleans()):
+                    pr = ["probe", pr[1] + ["tg"]]  # a template-level global of the importing template
+                body = [["text", "<%s.%s " % (me, nm)], ["out", ["n", "a"]], ["text", "|"], pr, ["text", ">"]]
                 node = ["macro", nm, ["a"], body]
                 w = _weighted(d, [(5, "plain"), (2, "iftrue"), (2, "ifelse"), (1, "iffalse")])
                 if w == "plain":
@@ -968,4 +972,12 @@ def module_sets(draw, max_libs=3, size=3, buffered_nocontext=True):
         glob["q"] = "glob-q"
     ir = {"kind": "modules", "templates": templates, "entries": users, "globals": glob,
           "modules": [n for n in sorted(templates) if n not in ("bad", "deep0", "deep1")]}
+    # template-level globals: some entries are loaded with get_template(name, globals={"tg": ...}); entries are
+    # rendered in order in one environment, so a library may already have been imported by an entry without them
+    tgl = {}
+    for i, u in enumerate(users):
+        if draw(st.integers(0, 5)) < (3 if i else 1):
+            tgl[u] = {"tg": "TG-" + u}
+    if tgl:
+        ir["tglobals"] = tgl
     return {"ir": ir, "data": data}
